@@ -550,6 +550,20 @@ func (m *C14) AfterBeginBlock(e *eng.Engine, b *eng.BlockRec) {
 func (m *C14) scan(e *eng.Engine, s *obs.Snapshot, where string) {
 	m.scans++
 	v := s.V()
+	bad := ScanIDsAndReferences(s)
+	if len(bad) > 0 {
+		e.Violate("C14", "ids-and-references", where+": "+firstN(bad, 6))
+	}
+	if len(m.samples) < 3 && len(v.BatchList) > 0 && m.scans%500 == 1 {
+		b := v.BatchList[len(v.BatchList)-1]
+		m.samples = append(m.samples, map[string]interface{}{"batch_denom": b.Denom, "parsed_project": base.GetProjectIDFromBatchDenom(b.Denom), "parsed_class": base.GetClassIDFromBatchDenom(b.Denom), "classes": len(v.ClassList), "projects": len(v.ProjectList), "batches": len(v.BatchList)})
+	}
+}
+
+// ScanIDsAndReferences is C14's scan of one state: identifier formats, uniqueness, parser agreement and
+// every stored reference (returns the list of complaints).
+func ScanIDsAndReferences(s *obs.Snapshot) []string {
+	v := s.V()
 	var bad []string
 	seen := map[string]bool{}
 	for _, c := range v.ClassList {
@@ -705,13 +719,7 @@ func (m *C14) scan(e *eng.Engine, s *obs.Snapshot, where string) {
 			bad = append(bad, "basket balance references missing batch "+bb.BatchDenom)
 		}
 	}
-	if len(bad) > 0 {
-		e.Violate("C14", "ids-and-references", where+": "+firstN(bad, 6))
-	}
-	if len(m.samples) < 3 && len(v.BatchList) > 0 && m.scans%500 == 1 {
-		b := v.BatchList[len(v.BatchList)-1]
-		m.samples = append(m.samples, map[string]interface{}{"batch_denom": b.Denom, "parsed_project": base.GetProjectIDFromBatchDenom(b.Denom), "parsed_class": base.GetClassIDFromBatchDenom(b.Denom), "classes": len(v.ClassList), "projects": len(v.ProjectList), "batches": len(v.BatchList)})
-	}
+	return bad
 }
 
 func (m *C14) Finish(e *eng.Engine, cov map[string]interface{}) {
